@@ -264,6 +264,130 @@ class HandlerEval:
         return n - nd, (None if a.vararg else n), a.kwarg is not None
 
 
+_INJECTIVE_CALLS = {"builtins.str", "builtins.repr", "builtins.tuple", "builtins.id", "builtins.list"}
+
+
+def _atoms(v, out: Set[str], lossy: Set[str], under_lossy: bool = False, stop: Optional[Set[str]] = None):
+    """Inputs a value depends on: configuration attributes, argument nodes/fields, parameters. `stop`: reprs of
+    terms that need not be opened (they are themselves part of the cache key)."""
+    if stop is not None and isinstance(v, V):
+        try:
+            if repr(v) in stop:
+                return
+        except Exception:
+            pass
+    return _atoms_open(v, out, lossy, under_lossy, stop)
+
+
+def _atoms_open(v, out: Set[str], lossy: Set[str], under_lossy: bool, stop):
+    if isinstance(v, NodeV):
+        out.add(v.path)
+        if under_lossy:
+            lossy.add(v.path)
+        return
+    if isinstance(v, ListV):
+        out.add(v.path)
+        return
+    if isinstance(v, ObjV):
+        if v.label == "self":
+            return
+        for a in (v.init_args[0] if v.init_args else []):
+            _atoms(a, out, lossy, under_lossy, stop)
+        return
+    if isinstance(v, Str):
+        for p in v.parts:
+            if p[0] == "dyn":
+                lz = under_lossy or any(t and t[0] in ("lower", "upper", "casefold", "strip", "slice", "split", "replace") for t in p[2])
+                _atoms(p[1], out, lossy, lz, stop)
+            elif p[0] == "join":
+                _atoms(p[2], out, lossy, under_lossy, stop)
+                _atoms(p[3], out, lossy, under_lossy, stop)
+        return
+    if isinstance(v, Sym):
+        if v.op == "cfg":
+            a = f"self.{v.args[1]}"
+            out.add(a)
+            if under_lossy:
+                lossy.add(a)
+            return
+        if v.op == "param":
+            a = f"param:{v.args[0]}"
+            out.add(a)
+            if under_lossy:
+                lossy.add(a)
+            return
+        if v.op in ("field", "prop", "meth") and isinstance(v.args[0], NodeV):
+            a = f"{v.args[0].path}.{v.args[1]}"
+            out.add(a)
+            if under_lossy:
+                lossy.add(a)
+            return
+        inj = v.op == "call" and isinstance(v.args[0], RefV) and v.args[0].qual in _INJECTIVE_CALLS
+        for a in v.args:
+            if isinstance(a, (V, tuple, list)):
+                _atoms(a, out, lossy, under_lossy or not inj, stop)
+        return
+    if isinstance(v, (PyList, PyTuple)):
+        for i in v.items:
+            _atoms(i, out, lossy, under_lossy, stop)
+        return
+    if isinstance(v, (tuple, list)):
+        for i in v:
+            if isinstance(i, (V, tuple, list)):
+                _atoms(i, out, lossy, under_lossy, stop)
+        return
+    if isinstance(v, MapV):
+        _atoms(v.elem, out, lossy, under_lossy, stop)
+        _atoms(v.over, out, lossy, under_lossy, stop)
+        return
+    if isinstance(v, NewNode):
+        for f in v.fields.values():
+            _atoms(f, out, lossy, under_lossy, stop)
+
+
+def cache_findings(paths) -> List[Tuple[str, str, str]]:
+    """Stores into containers shared between instances/calls (class-level or module-level dicts): the key must
+    determine everything the stored value was computed from. Returns (stable key, message, where)."""
+    out: List[Tuple[str, str, str]] = []
+    seen = set()
+    for p in paths or []:
+        for ev in p.events:
+            if ev.kind != "mutate" or ev.data.get("op") != "setitem" or not ev.data.get("shared"):
+                continue
+            kin: Set[str] = set()
+            klossy: Set[str] = set()
+            vin: Set[str] = set()
+            vlossy: Set[str] = set()
+            keyv = ev.data.get("keyv")
+            _atoms(keyv, kin, klossy)
+            stop: Set[str] = set()
+            todo = [keyv]
+            while todo:
+                t = todo.pop()
+                if isinstance(t, V):
+                    stop.add(repr(t))
+                if isinstance(t, (PyList, PyTuple)):
+                    todo.extend(t.items)
+            _atoms(ev.data.get("valv"), vin, vlossy, False, stop)
+
+            def covered(a: str) -> bool:
+                return any(a == k or a.startswith(k + ".") or a.startswith(k + "[") for k in kin - klossy)
+
+            missing = sorted(a for a in vin if not covered(a))
+            if not missing:
+                continue
+            name = ev.data["shared"]
+            k = f"{name}|{','.join(missing)[:80]}"
+            if k in seen:
+                continue
+            seen.add(k)
+            why = f"the value stored in the shared container {name} depends on {missing}, which the key ({sorted(kin) or 'constant'}) does not determine"
+            if any(a in klossy for a in missing):
+                why += " exactly (the key is normalised, the value is computed from the original)"
+            out.append((k, why + ": another instance or a later call gets an answer computed for different inputs", ev.where))
+    return out
+
+
 _TRAMPOLINE = ast.parse("def __trampoline__():\n    return __call_decorated__()\n").body[0]
 
 
